@@ -281,8 +281,8 @@ pub proof fn lemma_string_roundtrip(n: nat, flags: u8, v: Seq<u8>)
 
 // ---- RFC 9204 Appendix A, abstract: `spec_static(i)` is entry `i` of the static table.
 pub uninterp spec fn spec_static(i: nat) -> Option<SpecField>;
-// ASSUMED-FROM-UNIT: kani c11_static_table (the table has exactly the 99 entries 0..=98 of RFC 9204 App. A; the longest
-// entry, content-security-policy, has 23 + 53 octets)
+// ASSUMED-FROM-UNIT: kani c11_static_get_* / c11_static_get_out_of_range over kani/_spec.rs::SPEC_STATIC_TABLE (the table has
+// exactly the 99 entries 0..=98 of RFC 9204 App. A; the longest entry, content-security-policy, has 23 + 53 octets)
 #[verifier::external_body]
 pub proof fn axiom_static(i: nat)
     ensures spec_static(i) is Some <==> i < 99,
